@@ -235,7 +235,7 @@ def part_c(ctx):
     nfiles = ctx.n(14, 200)
     for i in range(nfiles):
         seed = ctx.seed * 100003 + i
-        case = absvcf.gen_case(seed)
+        case = absvcf.gen_case(seed, overlong=(0.3 if i % 2 else 0.0))
         text = absvcf.to_text(case)
         d = os.path.join(ctx.work, f"c10_{i}")
         os.makedirs(d)
@@ -274,7 +274,11 @@ def part_c(ctx):
             if s2 != schema or json.loads(s2.asjson()) != json.loads(schema.asjson()):
                 ctx.fail(doc, dict(schema=schema.asjson()[:1500]), "schema changed by a JSON round trip")
             # (3) reference encode and edits
-            vcf2zarr.encode(icf_path, ref_path, variants_chunk_size=vcs, samples_chunk_size=scs, worker_processes=0)
+            try:
+                vcf2zarr.encode(icf_path, ref_path, variants_chunk_size=vcs, samples_chunk_size=scs, worker_processes=0)
+            except Exception as e:  # noqa: BLE001
+                ctx.fail(doc, dict(error=f"{type(e).__name__}: {e}"[:300]), "encoding with the generated schema failed: the schema does not fit the store")
+                continue
             ref = store_arrays(ref_path)
             optional = [sp.name for sp in schema.fields if sp.vcf_field and "/" in sp.vcf_field]
             if len(optional) <= 3:
